@@ -43,9 +43,9 @@ func source(p *pipe, items []int) *fun.Iterator[int] {
 		ch := make(chan int)
 		p.feeders = append(p.feeders, func() {
 			for _, v := range items {
-				ch <- v
+				hsend(ch, v)
 			}
-			close(ch)
+			hclose(ch)
 		})
 		return fun.ChannelIterator(ch)
 	default:
@@ -162,9 +162,9 @@ func buildPipe(ctx context.Context, kind, n, w, buf int) *pipe {
 		ch := make(chan int, buf)
 		p.feeders = append(p.feeders, func() {
 			for _, v := range items {
-				ch <- v
+				hsend(ch, v)
 			}
-			close(ch)
+			hclose(ch)
 		})
 		it := fun.ChannelIterator(ch)
 		for i := 0; i < w; i++ {
